@@ -92,7 +92,7 @@ static int do_vec() {
 // real threads: oracle run (tiling + values), not compared with the model step by step
 static int do_mt(int T, unsigned seed, int nops) {
     tbb::concurrent_vector<uint32_t> v;
-    struct Rec { uint64_t start, len; uint32_t id; };
+    struct Rec { uint64_t start, len; uint32_t id; const uint32_t* addr; };      // addr: where the first element was when the call returned
     std::vector<std::vector<Rec>> recs(T);
     std::atomic<int> go{0};
     std::vector<std::thread> th;
@@ -102,15 +102,15 @@ static int do_mt(int T, unsigned seed, int nops) {
         for (int k = 0; k < nops; ++k) {
             uint32_t id = (uint32_t)(t * 1000000 + k + 1);
             int op = rng() % 3; uint64_t before = 0;
-            if (op == 0) { uint64_t d = rng() % 70; auto it = v.grow_by(d, id); if (d) recs[t].push_back({(uint64_t)(it - v.begin()), d, id}); }
-            else if (op == 1) { auto it = v.push_back(id); recs[t].push_back({(uint64_t)(it - v.begin()), 1, id}); }
+            if (op == 0) { uint64_t d = rng() % 70; auto it = v.grow_by(d, id); if (d) recs[t].push_back({(uint64_t)(it - v.begin()), d, id, &*it}); }
+            else if (op == 1) { auto it = v.push_back(id); recs[t].push_back({(uint64_t)(it - v.begin()), 1, id, &*it}); }
             else {
                 uint64_t n = v.size() + rng() % 40;
                 auto it = v.grow_to_at_least(n, id);
                 // the constructed range is [it, n) if it < n and the elements carry our id
                 uint64_t s = (uint64_t)(it - v.begin());
                 (void)before;
-                if (s < n && v[s] == id) recs[t].push_back({s, n - s, id});
+                if (s < n && v[s] == id) recs[t].push_back({s, n - s, id, &v[s]});
                 // (elements below n that belong to *other* threads' in-flight calls may legitimately still be
                 //  under construction; only this call's own range [s,n) is its responsibility)
                 if (v.size() < n) std::printf("SIZE-BELOW-N %llu\n", (unsigned long long)n);
@@ -122,6 +122,7 @@ static int do_mt(int T, unsigned seed, int nops) {
     for (int t = 0; t < T; ++t) for (auto& r : recs[t]) {
         bool ok = true;
         for (uint64_t i = r.start; i < r.start + r.len; ++i) if (v[i] != r.id) ok = false;
+        if (&v[r.start] != r.addr) { std::printf("MOVED %llu\n", (unsigned long long)r.start); ok = false; }        // the address of an element never changes
         o.put_u64(r.start); o.put_u64(r.len); o.put(ok ? 1 : 0);
     }
     o.flush();
